@@ -17,7 +17,8 @@ FIRST = {  # what the checks reported when the seed was first run, before any st
     'C16f': 'missed', 'C17f': 'caught', 'C18f': 'caught',
     'C01g': 'missed', 'C03g': 'missed', 'C04g': 'caught', 'C05g': 'tie broke, no input', 'C06g': 'caught', 'C07g': 'tie broke, no input',
     'C08g': 'caught', 'C09g': 'missed', 'C11g': 'missed', 'C12g': 'missed', 'C13g': 'caught', 'C14g': 'caught', 'C15g': 'caught',
-    'C16g': 'missed', 'C19g': 'missed', 'C20g': 'caught'}
+    'C16g': 'missed', 'C19g': 'missed', 'C20g': 'caught',
+    'C02g': 'missed', 'C10g': 'tie broke, no input', 'C17g': 'caught', 'C18g': 'caught'}
 SHORT = {
     'C02d': '2021 Schedule A line 8e drops line 8d', 'C04d': 'unset enumeration lines dropped from the returned solution',
     'C06d': 'waiters of a REFUSED input are released (meet moved out of the if)', 'C08d': '2021 EIC one-child limits transposed between MFJ and the others',
@@ -58,7 +59,11 @@ SHORT = {
     'C15g': '2023 Schedule A line 4: the 7.5% floor replaced by "blank when no expenses"',
     'C16g': '2022 capital-gain worksheet line 10: min(line 1, line 4) became line 4 (tax falls as wages rise)',
     'C19g': 'TextPDFField length guard measures value.lstrip("-")',
-    'C20g': 'answers of a prompt round committed to the store only at the end of the round (lost on EOF)'}
+    'C20g': 'answers of a prompt round committed to the store only at the end of the round (lost on EOF)',
+    'C02g': '2022 NC Child Deduction Table as a closed formula with floor division (an AGI exactly on a limit drops a band)',
+    'C10g': '2022 need-6251 worksheet line 2 reads Schedule A line 5, which does not exist (itemizing branch only)',
+    'C17g': '2023 catalogue imports the 2022 Form 1099-INT class (declares tax_year 2022)',
+    'C18g': '2023 Form 1040: line 30 mapped onto the line-29 widget (one box driven twice)'}
 
 
 def main(rounds):
